@@ -60,6 +60,9 @@ StaysOnManifold ==
 \* (stress_ok: from hard states -- large momenta / steps, several solution branches -- every step that
 \*  returned was undone by flip + step; otherwise it has to raise)
 RoundTrip == (T.outcome = "ok" => T.roundtrip_ok) /\ T.stress_ok
+\* ... and integrating back from a returned state does not raise either: a step whose reversal cannot be
+\* computed has to raise itself instead of returning a state
+ReverseReturns == T.stress_rev_ok
 InputUntouched == T.input_untouched
 
 \* C06 (necessary condition): the displacement over a small step is eps * (dH/dp, -dH/dq)
@@ -70,5 +73,5 @@ Consistent == T.outcome = "ok" => T.consistent_pos /\ T.consistent_mom
 Verdict ==
   PrintT(ToJson([q |-> q, FollowsProgram |-> FollowsProgram, TimeBudget |-> TimeBudget,
                  ReverseChecked |-> ReverseChecked, StaysOnManifold |-> StaysOnManifold,
-                 RoundTrip |-> RoundTrip, InputUntouched |-> InputUntouched, Consistent |-> Consistent]))
+                 RoundTrip |-> RoundTrip, ReverseReturns |-> ReverseReturns, InputUntouched |-> InputUntouched, Consistent |-> Consistent]))
 =============================================================================
